@@ -5,7 +5,9 @@
       ub:<table indexed with an invalid id> for each.  Invariant Guards: whatever the guards accept is structurally valid.
       drv_fault hostile assembles every row into a real Draco 2.2 stream and decodes it under ASan+UBSan(+libstdc++ assertions).
       MC_SeqDecoder / spec/SeqDecoder.tla: the same for the sequential mesh connectivity decoder (declared points / faces, stored indices in every
-      width, compressed index differences).
+      width, compressed index differences).  MC_LegacyKd: the three point counts of a pre-2.3 kd-tree cloud.  MC_KdTree / spec/KdTree.tla: the
+      integer kd-tree coder at the level of the requests made to its four bit coders (honest encodings byte-compared with the real encoder, every
+      single changed number / half bit / axis number, payload and header counts off by one).
   (2) nested metadata: a chain of D sub-metadata blocks, D around and far above kMaxSubmetadataLevel, in front of corpus geometries.
   Records are validated by Trace_Fault (Level A of C02 or C03; the model's predictions only as drift).
 """
@@ -34,6 +36,19 @@ def rows_for(tier, wd):
     vlib.tlc_ok(r3, "MC_LegacyKd")
     rows += vlib.tlc_prints(r3["out"])
     r["lkd"] = r3
+    # the integer kd-tree coder of bitstream 2.3 (module KdTree): design checks (round trip over every small point sequence, stack / axis bounds under
+    # every list of served values), then the request-level rows -- honest encodings, every single changed number / half bit / axis number, counts off by one
+    kd = []
+    kd_cfgs = ["rt22", "safe"] if tier == "quick" else ["rt22", "rt13", "rt31", "rt23", "rt22t4", "safe", "safe_big"]
+    for cfg in kd_cfgs:
+        g = vlib.tlc("MC_KdTree", cfg="MC_KdTree_%s.cfg" % cfg, specdir=MC, workers=12, timeout=3000)
+        vlib.tlc_ok(g, "MC_KdTree " + cfg)
+        kd.append((cfg, g))
+    r4 = vlib.tlc("MC_KdTree", cfg="MC_KdTree_rows.cfg", specdir=MC, workers=1, timeout=1200)
+    vlib.tlc_ok(r4, "MC_KdTree rows")
+    rows += vlib.tlc_prints(r4["out"])
+    kd.append(("rows", r4))
+    r["kd"] = kd
     f = os.path.join(wd, "eb_rows.ndjson")
     vlib.write_ndjson(f, rows)
     return r, f
@@ -51,6 +66,11 @@ def run(v, tier, seed, wd, prop="C02"):
     v.add_tlc("MC_EbDecoder_" + tier, r)
     v.add_tlc("MC_SeqDecoder_" + tier, r["seq"])
     v.add_tlc("MC_LegacyKd", r["lkd"])
+    for cfg, g in r["kd"]:
+        v.add_tlc("MC_KdTree_" + cfg, g)
+        if g["violated"]:
+            v.violation({"what": "MC_KdTree (%s): the transcribed kd-tree coder does not round-trip, or a served value pushes a stack index / axis out of range" % cfg,
+                         "tlc": g["out"][-1500:]}, tags={"kind": "model_kdtree"})
     if tier != "quick":
         # deeper design checks of the guards without replay: longer strings, pairs of split events
         for cfg in ("guards6", "guards5p"):
